@@ -8,6 +8,7 @@ import (
 	"crypto/elliptic"
 	"fmt"
 	"math/big"
+	"strings"
 
 	cose "github.com/veraison/go-cose"
 
@@ -21,7 +22,7 @@ func init() {
 	Infos["C14"] = ScenarioInfo{
 		Level: "exploration",
 		Rule: "one run = one provisioning event of the key directory: a Go key (pool keys, tape-derived P-256/P-384/P-521 keys searched for leading zero bytes in x, y or d, the valid public points with x = 0, Ed25519 keys) is converted with NewKeyFromPrivate/NewKeyFromPublic, " +
-			"decorated with kid / key_ops / base IV / extra parameters on a subset, serialised, stored, parsed back and converted to Go keys, signer and verifier; a second path starts from COSE_Key bytes written by the reference encoder (coordinates padded or trimmed). " +
+			"decorated with kid / key_ops / base IV / extra parameters on a subset, serialised, stored, parsed back and converted to Go keys, signer and verifier; a second path starts from COSE_Key bytes written by the reference encoder (coordinates padded or trimmed); a third builds several keys with NewKeyOKP/NewKeyEC2 from sub-slices of one caller-owned record buffer, which conversions must leave unchanged; alg (optional) is cleared on a third of the keys. " +
 			"Oracle: Go key equal after the chain (public and private halves); in the stored bytes the reference parser finds x and y of exactly the field size; a signature made by the signer from the stored private key verifies under the verifier from the stored public key and under the reference verifier. " +
 			"Simulation contributes the habitat (every key of the world passes through the directory) - the rare inputs come from a biased key pool, which is input generation and is called that. Non-trivial = a chain was completed and compared; distinct = distinct (curve, leading-zero class, decorations, path, outcome).",
 		Assumptions: []string{"Go crypto and math/big are correct"},
@@ -34,7 +35,7 @@ func init() {
 		Level: "exploration",
 		Rule: "one run = a COSE_Key at rest (EC2 / OKP private or public, symmetric, unregistered type; alg, key_ops as integers or names incl. present-but-empty, kid, base IV, extra int/tstr parameters; written by the reference encoder) is hit by 0..3 storage faults " +
 			"from the byte-level and structural catalogue (KEY_CORRUPT) and loaded (KEY_LOAD). Accepted => the reference key predicate holds on the stored bytes (kty non-reserved, unique int/tstr labels, curve valid for the key type, coordinates within size, alg matches curve) " +
-			"and re-encoding is a canonical fixpoint (encode(decode(encode(k))) == encode(k), deterministic CBOR). Signer() returns nil error => private material present, key_ops absent or containing sign, kty EC2/OKP, and Algorithm() is the one fixed by the key; the same for Verifier() with the public point and verify. " +
+			"and re-encoding is a canonical fixpoint (encode(decode(encode(k))) == encode(k), deterministic CBOR). Signer() returns nil error => private material present, key_ops absent or containing sign, kty EC2/OKP, and Algorithm() is the one fixed by the key; the same for Verifier() with the public point and verify; the Key variable may have held (and served) another key before, and the verifier/signer obtained is judged by behaviour too: it judges a signature of the generated pair exactly as the reference does with the public point read from the stored bytes (untagged keys whose halves agree). " +
 			"Non-trivial = the decoder accepted the key; distinct = distinct (key kind, ops class, fault kinds, signer/verifier outcome).",
 		Assumptions: []string{"reference key predicate transcribes the property statement; a coordinate parameter of a non-bstr type is not judged", "key_ops entries are read as RFC 9052 integers or RFC 7517 names"},
 		Real:        []string{"github.com/veraison/go-cose (key.go)", "github.com/fxamacker/cbor/v2", "Go crypto"},
@@ -463,6 +464,10 @@ func opsClass(ks *KeySpec) string {
 func scenarioC15(r *Run) {
 	t := r.T
 	ks := genKeySpec(t)
+	if t.Bool(1, 16, "c15.bignum") {
+		// an application parameter holding a CBOR bignum
+		ks.Extra = append(ks.Extra, KV{refcbor.Int(int64(-3000 - t.Choose(100, "c15.bignum.l"))), genBignum(t)})
+	}
 	stored := ks.Bytes()
 	if t.Bool(1, 3, "c15.noncanonical") {
 		// a peer need not write deterministically
@@ -541,6 +546,10 @@ func scenarioC15(r *Run) {
 	var k2 cose.Key
 	r.Lib(func() { err = k2.UnmarshalCBOR(enc1) })
 	if err != nil {
+		if it, perr := refcbor.ParseOne(stored); perr == nil && bignumBeyondInt64(it) && strings.Contains(err.Error(), "overflows Go's int64") {
+			r.Fail("reencoding-breaks/bignum-beyond-int64", "a key parameter holds a bignum (tag 2/3) whose value needs more than int64 but fits 64 bits; it is re-encoded as a plain 8-byte integer, which the decoder refuses: %v\nstored: %s\nre-encoded: %x", err, hexShort(stored), enc1)
+			return
+		}
 		if timeKey {
 			r.Fail("reencoding-breaks/time-tagged-map-key", "the re-encoding of an accepted key with a date/time-tagged map key is refused: %v\nstored: %s\nre-encoded: %x", err, hexShort(stored), enc1)
 			return
